@@ -259,6 +259,14 @@ func (g *Gen) strLit(s string) string {
 // rangeOf returns a Bool term constraining term s to be a legal value of Go type t
 // (integer ranges in int mode, lengths non-negative, refs below the allocation counter).
 func (g *Gen) rangeOf(t types.Type, s string, st *State) string {
+	return g.rangeOfA(t, s, g.heapGet(st, "$alloc"))
+}
+
+// rangeOfA: as rangeOf, with the allocation counter given as a term. Struct types get one defined
+// predicate rng.<sort>(x, alloc) so that the (large) conjunction is written once per query.
+func (g *Gen) rangeOfA(t types.Type, s string, al string) string {
+	st := (*State)(nil)
+	_ = st
 	switch tt := t.Underlying().(type) {
 	case *types.Basic:
 		if w, signed, ok := intWidth(tt); ok && g.mode == ModeInt {
@@ -273,21 +281,32 @@ func (g *Gen) rangeOf(t types.Type, s string, st *State) string {
 		return "true"
 	case *types.Pointer:
 		if _, isStruct := tt.Elem().Underlying().(*types.Struct); isStruct {
-			return fmt.Sprintf("(and (< %s %s) (< (ref.root %s) %s))", s, g.heapGet(st, "$alloc"), s, g.heapGet(st, "$alloc"))
+			return fmt.Sprintf("(and (< %s %s) (< (ref.root %s) %s))", s, al, s, al)
 		}
 		return "true"
 	case *types.Map, *types.Chan:
-		return fmt.Sprintf("(and (<= 0 %s) (< %s %s))", s, s, g.heapGet(st, "$alloc"))
+		return fmt.Sprintf("(and (<= 0 %s) (< %s %s))", s, s, al)
 	case *types.Slice:
 		z := g.idxLit(0)
-		return fmt.Sprintf("(and (<= 0 (sl.ref %s)) (< (sl.ref %s) %s) %s %s %s %s (=> (= (sl.ref %s) 0) (= (sl.cap %s) %s)))", s, s, g.heapGet(st, "$alloc"),
+		return fmt.Sprintf("(and (<= 0 (sl.ref %s)) (< (sl.ref %s) %s) %s %s %s %s (=> (= (sl.ref %s) 0) (= (sl.cap %s) %s)))", s, s, al,
 			g.le(z, "(sl.off "+s+")"), g.le(z, "(sl.len "+s+")"), g.le("(sl.len "+s+")", "(sl.cap "+s+")"), g.le("(sl.cap "+s+")", g.idxLit(maxLen)), s, s, z)
 	case *types.Struct:
 		sort := g.structSort(t)
+		pred := "rng." + sort
+		if v, done := g.rngPred[pred]; done {
+			if !v {
+				return "true"
+			}
+			return "(" + pred + " " + s + " " + al + ")"
+		}
+		if g.rngPred == nil {
+			g.rngPred = map[string]bool{}
+		}
+		g.rngPred[pred] = false // guards recursion
 		var parts []string
 		for i := 0; i < tt.NumFields(); i++ {
 			f := tt.Field(i)
-			r := g.rangeOf(f.Type(), fmt.Sprintf("(%s.%s %s)", sort, sanitize(f.Name()), s), st)
+			r := g.rangeOfA(f.Type(), fmt.Sprintf("(%s.%s rx)", sort, sanitize(f.Name())), "ral")
 			if r != "true" {
 				parts = append(parts, r)
 			}
@@ -295,7 +314,9 @@ func (g *Gen) rangeOf(t types.Type, s string, st *State) string {
 		if len(parts) == 0 {
 			return "true"
 		}
-		return "(and " + strings.Join(parts, " ") + ")"
+		g.rngPred[pred] = true
+		g.emit("(define-fun %s ((rx %s) (ral Int)) Bool (and %s))", pred, sort, strings.Join(parts, " "))
+		return "(" + pred + " " + s + " " + al + ")"
 	}
 	return "true"
 }
